@@ -189,6 +189,22 @@ def requests_C08(docs, emitted, seed, tier):
                         out.append(f"gd {d['name']} {it['name']} {p} {idlgen.sexp(w)}{mark} => {want} C08")
                 if not hz:
                     out += async_lines(r, d, it, w, want, "C08", every=not d["name"].startswith("r"))
+                # the same reader built with keep_unknown_fields (checked and unchecked binary): what surrounds a known field - an
+                # unknown scalar right behind a known one in particular - must not change how it decodes
+                if not hz and d["name"] + "k" in emitted and not it.get("synth") and r.random() < 0.5:
+                    args = idlgen.arg_types(d)
+                    if (args and idlgen.d12_fires(items, ("ref", it["name"]), w, args)) or idlgen.union_known_plus_unknown(items, ("ref", it["name"]), w):
+                        continue
+                    wantk = idlgen.expected_keep(items, it["name"], w)
+                    nort = ""
+                    if args and wantk != "err":
+                        try:
+                            if idlgen.d12_fires(items, ("ref", it["name"]), idlgen.project_item_keep(items, it, w), args):
+                                nort = " nort"
+                        except idlgen.Reject:
+                            pass
+                    for p in ("bin", "ubin"):
+                        out.append(f"gd {d['name']}k {it['name']} {p} {idlgen.sexp(w)} => {wantk}{nort} C08")
     return out
 
 
